@@ -200,11 +200,11 @@ class Run:
             mo, spec = split_model(mr)
             self.n_cases += 1
             self.dist[c.tag + ":" + io.split(" ")[0] + ("-" + io.split(" ")[1] if io.startswith(("reject", "pyexc", "err")) and len(io.split(" ")) > 1 else "")] += 1
+            verdict = judge(c, io, spec) if judge else None
             if c.line not in seen:
                 seen.add(c.line)
                 if nontrivial is None or nontrivial(c, io):
                     self.n_distinct_nontrivial += 1
-            verdict = judge(c, io, spec) if judge else None
             agree = io == mo
             if mo == "unmodelled":
                 # negative exponent: Python goes through floating point, the model declines (DESIGN §3 L3)
